@@ -562,6 +562,7 @@ pub struct LineBuf {
 
 	pub last_selection: Option<SelectRange>,
 	pub last_pattern_search: Option<Regex>,
+	pub last_search_dir: Direction,
 	pub last_substitution: Option<(Regex,String,SubFlags)>,
 	pub last_global: Option<Verb>,
 
@@ -2695,60 +2696,42 @@ impl LineBuf {
 				}
 				MotionKind::On(target.get())
 			}
-			MotionCmd(count, Motion::NextMatch) => {
-				let Some(regex) = self.last_pattern_search.as_ref() else {
-					return MotionKind::Null
-				};
-				let haystack = self.buffer.as_str();
-				let matches = regex.find_iter(haystack).collect::<Vec<_>>();
-				let wrap_match: Option<&regex::Match> = matches.first();
-				let cursor_byte_pos = self.read_cursor_byte_pos();
-				let mut fwd_matches = 0;
-				for mat in &matches {
-					if mat.start() > cursor_byte_pos {
-						fwd_matches += 1;
-						if fwd_matches == count {
-							let Some(match_idx) = self.find_index_for_byte_pos(mat.start()) else { return MotionKind::Null };
-							return MotionKind::On(match_idx)
-						}
-					}
-				}
-				let Some(mat) = wrap_match else { return MotionKind::Null };
-				let Some(match_idx) = self.find_index_for_byte_pos(mat.start()) else { return MotionKind::Null };
-				MotionKind::Onto(match_idx)
-			}
+			MotionCmd(count, Motion::NextMatch) |
 			MotionCmd(count, Motion::PrevMatch) => {
 				let Some(regex) = self.last_pattern_search.as_ref() else {
 					return MotionKind::Null
 				};
-				let haystack = self.read_slice_to_cursor().unwrap();
-				let matches = regex
-					.find_iter(haystack)
-					.collect::<Vec<_>>()
-					.into_iter()
-					.rev()
-					.collect::<Vec<_>>(); // I'm gonna be sick
-				let wrap_match: Option<&regex::Match> = matches.last();
-				let cursor_byte_pos = self.read_cursor_byte_pos();
-				let mut bkwd_matches = 0;
-				for mat in &matches {
-					if mat.start() < cursor_byte_pos {
-						bkwd_matches += 1;
-						if bkwd_matches == count {
-							let Some(match_idx) = self.find_index_for_byte_pos(mat.start()) else { return MotionKind::Null };
-							return MotionKind::On(match_idx)
-						}
-					}
+				let starts = regex.find_iter(self.buffer.as_str())
+					.map(|mat| mat.start())
+					.collect::<Vec<_>>();
+				if starts.is_empty() {
+					return MotionKind::Null
 				}
-				let Some(mat) = wrap_match else { return MotionKind::Null };
-				let Some(match_idx) = self.find_index_for_byte_pos(mat.start()) else { return MotionKind::Null };
-				MotionKind::Onto(match_idx)
+				let cursor_byte_pos = self.read_cursor_byte_pos();
+				// 'n' goes in the direction of the last search, 'N' against it
+				let same_dir = matches!(motion.1, Motion::NextMatch);
+				let forward = same_dir == (self.last_search_dir == Direction::Forward);
+				let steps = count.saturating_sub(1) % starts.len();
+				// The match next to the cursor, wrapping around the buffer; then 'count - 1' matches further
+				let target = if forward {
+					let first = starts.iter().position(|start| *start > cursor_byte_pos).unwrap_or(0);
+					(first + steps) % starts.len()
+				} else {
+					let first = starts.iter().rposition(|start| *start < cursor_byte_pos).unwrap_or(starts.len() - 1);
+					(first + starts.len() - steps) % starts.len()
+				};
+				let Some(match_idx) = self.find_index_for_byte_pos(starts[target]) else { return MotionKind::Null };
+				MotionKind::On(match_idx)
 			}
 			MotionCmd(_count, Motion::PatternSearchRev(ref pat)) |
 			MotionCmd(_count, Motion::PatternSearch(ref pat)) => {
 				match Regex::new(pat) {
 					Ok(regex) => {
 						self.last_pattern_search = Some(regex.clone());
+						self.last_search_dir = match &motion.1 {
+							Motion::PatternSearchRev(_) => Direction::Backward,
+							_ => Direction::Forward
+						};
 						let haystack = self.buffer.as_str();
 						let matches = regex.find_iter(haystack).collect::<Vec<_>>();
 						// We will use this match if we don't find any in our desired direction, just like vim
